@@ -689,8 +689,18 @@ func (sa *Safe) stdlib(fr *frame, st *State, x *ssa.Call, callee *ssa.Function, 
 			st.assume(v.Lin.add(args[0].Len, -1).addConst(1)) // result <= len - 1
 		}
 		return one(v)
-	case "strings.Split":
-		ln := sa.boundedAtom(fr, st, types.Typ[types.Int], "len("+desc+")", Itv{1, posInf})
+	case "strings.Split", "strings.SplitN":
+		lo := int64(1)
+		if name == "strings.SplitN" {
+			// SplitN(s, sep, 0) returns nil: at least one part only for a provably non-zero count
+			lo = 0
+			if len(args) > 2 && args[2].Lin != nil {
+				if iv := st.linItv(args[2].Lin); iv.Lo > 0 || iv.Hi < 0 {
+					lo = 1
+				}
+			}
+		}
+		ln := sa.boundedAtom(fr, st, types.Typ[types.Int], "len("+desc+")", Itv{lo, posInf})
 		return one(sa.sliceResult(fr, st, sig.Results().At(0).Type(), desc, ln.Lin, true))
 	case "strconv.Itoa", "strconv.FormatInt", "strconv.FormatUint":
 		v := sa.freshM(fr, st, types.Typ[types.String], desc, nilMaybe)
